@@ -245,23 +245,21 @@ func (c *msgpackSpecRpcCodec) parseCustomHeader(expectTypeByte byte, msgid *uint
 	// We read the response header by hand
 	// so that the body can be decoded on its own from the stream at a later time.
 
-	const fia byte = 0x94 //four item array descriptor value
+	// The array descriptor must be read through the decoder (not off the connection),
+	// as a buffering decoder (ReaderBufferSize > 0) may already hold the start of this
+	// message, if it arrived together with the end of the previous one.
 
-	var ba [1]byte
-	var n int
-	for {
-		n, err = c.r.Read(ba[:])
-		if err != nil {
-			return
-		}
-		if n == 1 {
-			break
-		}
+	const fia = 4 // four item array
+
+	var alen int
+	err = panicToErr(c.dec, func() { alen = c.dec.readArrayStart() })
+	if err != nil {
+		return
 	}
 
-	var b = ba[0]
-	if b != fia {
-		err = fmt.Errorf("not array - %s %x/%s", msgBadDesc, b, mpdesc(b))
+	var b byte
+	if alen != fia {
+		err = fmt.Errorf("not array - %s - expecting array of length %d but got %d", msgBadDesc, fia, alen)
 	} else {
 		err = c.read(&b)
 		if err == nil {
